@@ -172,6 +172,18 @@ Proof. intro K. unfold interrupted. q_walk c7. all: q_done. Qed.
 Ltac c8 := idtac; first [ c7 | lazymatch goal with
   | |- wp _ interrupted _ _ _ => q_docall q_interrupted end ].
 
+(* outcomes held back until an API call returns do not move the monitor *)
+Lemma neutral_gouts g l : forallb req_neutral l = true -> gouts req_out g l = Some g.
+Proof.
+  induction l as [|x l IH]; cbn [forallb gouts]; [reflexivity|]. intro H. apply andb_prop in H. destruct H as [H1 H2].
+  destruct x; try discriminate H1; cbn [req_out]; auto.
+Qed.
+Ltac q_flush :=
+  lazymatch goal with
+  | |- wp _ (fun s' : state => (Ok tt, s', ?l)) _ ?g _ =>
+    apply wp_emits; exists g; split; [ apply neutral_gouts; solve [qsolve] | cbn beta iota ]
+  end.
+
 (* ---------- the re-entrant methods ---------- *)
 Section Rec.
 Variable rec : kont -> M unit.
@@ -184,6 +196,8 @@ Lemma q_api_stop s : kind_ok s = true -> wq (api_stop rec) QI (req_abs s) s.
 Proof. intro K. unfold api_stop. q_walk c9. all: q_done. Qed.
 Lemma q_api_commit s : kind_ok s = true -> wq api_commit QI (req_abs s) s.
 Proof. intro K. unfold api_commit. q_walk c9. all: q_done. Qed.
+Lemma q_api_shutdown s : kind_ok s = true -> wq (api_shutdown rec) QI (req_abs s) s.
+Proof. intro K. unfold api_shutdown. repeat (first [ q_flush | q_stif | q_emit | wp_step c9 ]). all: q_done. Qed.
 Lemma q_handle_commit_error fk i a s : kind_ok s = true -> wq (handle_commit_error rec fk i a) QI (req_abs s) s.
 Proof. intro K. unfold handle_commit_error. q_walk c9. all: q_done. Qed.
 Lemma q_fire_all ds r s : kind_ok s = true -> wq (fire_all rec ds r) QI (req_abs s) s.
@@ -201,6 +215,7 @@ Proof. intro K. unfold stop_rcall. q_walk c9. all: q_done. Qed.
 Ltac c10 := idtac; first [ c9 | lazymatch goal with
   | |- wp _ (api_stop _) _ _ _ => q_docall q_api_stop
   | |- wp _ api_commit _ _ _ => q_docall q_api_commit
+  | |- wp _ (api_shutdown _) _ _ _ => q_docall q_api_shutdown
   | |- wp _ (handle_commit_error _ _ _ _) _ _ _ => q_docall q_handle_commit_error
   | |- wp _ (fire_all _ _ _) _ _ _ => q_docall q_fire_all
   | |- wp _ (finish_block _) _ _ _ => q_docall q_finish_block
